@@ -1,9 +1,9 @@
 SPECIFICATION Spec
 CONSTANTS
-  MaxUnits = 2
-  MaxRun = 2
-  Rich = FALSE
-  MaxN = 7
+  MaxUnits = 1
+  MaxRun = 3
+  Rich = TRUE
+  MaxN = 10
   PassLimit = TRUE
   Runs <- MCRuns
   UpTable <- MCUp
